@@ -111,8 +111,12 @@ func (in *Interp) formatValue(fr *frame, verb byte, flags string, arg Value) (St
 	if t != nil && in.fmtLazy && (verb == 'v' || verb == 's' || verb == 'q') {
 		// inside Errorf: messages built from other errors / Stringers are never inspected; keep them opaque
 		if _, isStr := v.(Str); !isStr {
-			if _, isT := v.(*T); !isT {
+			tv, isT := v.(*T)
+			if !isT {
 				return Str{}, false
+			}
+			if !tv.IsConst() && in.prog.MethodSets.MethodSet(t).Lookup(nil, "String") != nil {
+				return Str{}, false // e.g. a symbolic time.Duration: its String() loops over digits
 			}
 		}
 	}
@@ -619,6 +623,38 @@ func init() {
 		sub := in.prog.LookupMethod(in.namedType("time", "Time"), nil, "Sub")
 		return in.call(fr, sub, []Value{now, args[0]})
 	})
+	// (time.Time).Sub for instants without monotonic reading (all instants in this model): the saturating
+	// difference stated without the division that the library's own overflow test performs.
+	reg("(time.Time).Sub", func(in *Interp, fr *frame, fn *ssa.Function, args []Value) Value {
+		tb := in.tb
+		t, u := args[0].(Struct), args[1].(Struct)
+		tw, uw := t[0].(*T), u[0].(*T)
+		hasMono := func(w *T) bool { return upperBound(w) >= 1<<63 }
+		if hasMono(tw) || hasMono(uw) {
+			in.unsupported("time.Time.Sub on an instant with a monotonic reading")
+		}
+		mask := tb.BV(64, 1<<30-1)
+		ds := tb.Sub(t[1].(*T), u[1].(*T))
+		dn := tb.Sub(tb.BAnd(tw, mask), tb.BAnd(uw, mask))
+		k := func(v int64) *T { return tb.BV(64, uint64(v)) }
+		const Q, R = 9223372036, 854775807
+		fitsHi := tb.Or(tb.SLt(ds, k(Q)), tb.Or(tb.And(tb.Eq(ds, k(Q)), tb.SLe(dn, k(R))), tb.And(tb.Eq(ds, k(Q+1)), tb.SLe(dn, k(R-1000000000)))))
+		fitsLo := tb.Or(tb.SLt(k(-Q), ds), tb.Or(tb.And(tb.Eq(ds, k(-Q)), tb.SLe(k(-(R+1)), dn)), tb.And(tb.Eq(ds, k(-Q-1)), tb.SLe(k(1000000000-(R+1)), dn))))
+		d := tb.Add(tb.Mul(ds, k(1000000000)), dn)
+		return tb.Ite(tb.And(fitsHi, fitsLo), d, tb.Ite(tb.SLt(ds, k(0)), tb.BV(64, 1<<63), tb.BV(64, 1<<63-1)))
+	})
+	for _, m := range []string{"Seconds", "Minutes", "Hours"} {
+		name := "(time.Duration)." + m
+		div := map[string]float64{"Seconds": 1e9, "Minutes": 60e9, "Hours": 3600e9}[m]
+		reg(name, func(in *Interp, fr *frame, fn *ssa.Function, args []Value) Value {
+			d := args[0].(*T)
+			if d.IsConst() {
+				return F64(float64(int64(d.k)) / div)
+			}
+			// floats are concrete in this engine: a symbolic duration as float may be passed on (metrics) but not used
+			return Poison{"float value of a symbolic duration"}
+		})
+	}
 	reg("time.runtimeNano", func(in *Interp, fr *frame, fn *ssa.Function, args []Value) Value {
 		return in.tb.BV(64, 0)
 	})
